@@ -2,9 +2,14 @@
 from props import compile_common as cc
 
 LEVEL = 'proof'
-MODULES = ['Pysmi.Props.C10', 'Pysmi.Props.C10Searcher']
-LAKE_TARGETS = ['Pysmi.Props.C10', 'Pysmi.Props.C10Searcher']
+MODULES = ['Pysmi.Props.C10', 'Pysmi.Props.C10Searcher', 'Pysmi.Pins.Compile', 'Pysmi.Pins.SkelC10']
+LAKE_TARGETS = ['Pysmi.Props.C10', 'Pysmi.Props.C10Searcher', 'Pysmi.Pins.Compile', 'Pysmi.Pins.SkelC10']
 THEOREMS = [
+    'Pysmi.Pins.SkelC10.pin_anyFileSearcher',
+    'Pysmi.Pins.SkelC10.pin_pyFileSearcher',
+    'Pysmi.Pins.SkelC10.pin_stubSearcher',
+    'Pysmi.Pins.Compile.pin_statuses',
+    'Pysmi.Pins.Compile.pin_skeleton',
     'Pysmi.Compile.C10_searchLoop_fresh',
     'Pysmi.Compile.C10_searchLoop_calls',
     'Pysmi.Compile.C10_needStep',
